@@ -7,6 +7,7 @@
   Statements are those of Proofs/GenSup*.lean (shown by `#check` in the audit); restated through `type_of%`.
 -/
 import PdbVerif.Proofs.GenSup
+import PdbVerif.Proofs.GenSupClosed
 
 namespace Props.C13K2
 open Py Proofs.GenSupWorld
@@ -22,6 +23,15 @@ theorem gensup_get_intersection_eq_model : type_of% @Proofs.SupTie.gensup_get_in
 theorem gensup_kwTest_setItem : type_of% @Proofs.SupTie.kwTest_setItem := @Proofs.SupTie.kwTest_setItem
 /-- `.rstrip('.pdb')` is the model's `rstripPdb` (a character SET is stripped) -/
 theorem gensup_rstripChars_pdb : type_of% @Proofs.SupTie.rstripChars_pdb := @Proofs.SupTie.rstripChars_pdb
+
+/-- `get_intersection` in every world that simulates the hand model's many2sql steps IS `Model.SupDb.getIntersection` -/
+theorem gensup_get_intersection_eq_model_world : type_of% @Proofs.SupTie.gensup_get_intersection_eq_model_world := @Proofs.SupTie.gensup_get_intersection_eq_model_world
+/-- `superpose()` sees the many2sql world only through `get_intersection` -/
+theorem gensup_superpose_world : type_of% @Proofs.SupTie.superpose_world := @Proofs.SupTie.superpose_world
+/-- `superpose()` = the hand model in every such world -/
+theorem gensup_superpose_eq_model_world : type_of% @Proofs.SupTie.gensup_superpose_eq_model_world := @Proofs.SupTie.gensup_superpose_eq_model_world
+/-- the hand model's own world is one (non-vacuity of `Simulates`) -/
+theorem gensup_simulates_self : type_of% @Proofs.SupTie.simulates_self := @Proofs.SupTie.simulates_self
 
 /-! ### non-vacuity: the generated function runs on a concrete pair and lands the displaced copy back -/
 
@@ -74,5 +84,31 @@ example : (GenSup.superpose (σ := Unit) (fun _ => .error .typeError) many2sql m
       (.inr ⟨exMob, none⟩) (.inr ⟨exTar, none⟩) () false true []) = .error .typeError := by decide +kernel
 
 example : GenSup.Rt.rstripChars "decoy_b.pdb".toList ".pdb".toList = "decoy_".toList := by decide
+
+/-! ### the many2sql world closed by the TRANSLATED many2sql functions (Gen/Many.lean): `GenM.many2sql_init`, `GenM.many2sql_call` on the text
+    side and the translated statement text through MicroSql (Proofs/GenSupClosed.lean).  The general equality for this world is conditional
+    (`Simulates`, see that file for what is missing); on concrete structures it is decided by kernel evaluation. -/
+open Proofs.SupTie.Closed in
+set_option maxRecDepth 16000 in
+/-- `get_intersection` through the translated many2sql = `Model.SupDb.getIntersection` (the target has no N: CA, CB are paired) -/
+example : GenSup.get_intersection many2sqlT many2sqlCallT many2sqlGetIntersectionT ⟨exMob, none⟩ ⟨exTar.drop 1, none⟩ [] =
+    (Model.SupDb.getIntersection exMob (exTar.drop 1) (GenSup.Rt.kwTest [])).map (fun pairs => (pairs.map (·.1), pairs.map (·.2))) := by
+  decide +kernel
+
+open Proofs.SupTie.Closed in
+set_option maxRecDepth 16000 in
+/-- … with a keyword selection, and the IndexError of an empty structure -/
+example : GenSup.get_intersection many2sqlT many2sqlCallT many2sqlGetIntersectionT ⟨exMob, none⟩ ⟨exTar.drop 1, none⟩ [(['n','a','m','e'], [.text ['C','A']])] =
+    .ok ([⟨6, 0, 0⟩], [⟨1, 0, 0⟩]) ∧
+    GenSup.get_intersection many2sqlT many2sqlCallT many2sqlGetIntersectionT ⟨[], none⟩ ⟨exTar, none⟩ [] = .error .indexError := by
+  decide +kernel
+
+open Proofs.SupTie.Closed in
+set_option maxRecDepth 16000 in
+/-- `superpose()` through the translated many2sql on the intersection route = the same call in the hand model's world = the hand model -/
+example : GenSup.superpose (σ := Unit) (fun _ => .error .typeError) many2sqlT many2sqlCallT many2sqlGetIntersectionT exKernel
+      (.inr ⟨exMob, none⟩) (.inr ⟨exTar.drop 1, none⟩) () false false [] =
+    (Model.SupDb.superpose (fun P Q => exKernel P Q ()) ⟨exMob, none⟩ ⟨exTar.drop 1, none⟩ (argsOf false false [])).map (outOf ⟨exMob, none⟩) := by
+  decide +kernel
 
 end Props.C13K2
